@@ -8,6 +8,8 @@ regenerated from the code on every run (tie G, `Generated/Dtypes.lean`).
 * `Natural`, `Shape`, `Ty`                       — `Constant`/`Unknown`, `Shape`, `Type`/`Tensor`/`Sequence`/`Optional`
 * `Natural.le`, `Shape.le`, `subtype`            — `__le__` per class, `Shape.__le__`, `_subtype` (with the `==` shortcut and the `Type()` wildcard)
 * `bElem`, `bZip`, `broadcast`                   — `_broadcast_elem`, the `zip`, `Shape.broadcast` (with the swap and the left padding)
+* `SDim`, `SimpleShape`, `fromSimple`/`toSimple`, `ShapeArg`, `broadcastArg`, `canBroadcast`, `maybeRank`
+                                                 — the simple format, `Union[Shape, SimpleShape]` arguments (`None` = unknown rank), `can_broadcast`, `maybe_rank`
 * `DimP`, `TypeProto`, `toOnnx`, `fromOnnx`      — the fragment of `onnx.TypeProto` spox reads and writes
 * `npElem`, `npZip`, `npBroadcast`               — numpy's broadcasting rule on concrete shapes (specification side)
 * `RtVal`, `conforms`, `compat`                  — runtime values, "type describes value", the statement's compatibility (specification side)
@@ -155,6 +157,9 @@ def ShapeArg.resolve : ShapeArg → Shape
 
 /-- `Shape.broadcast(self, other)` as called (operand in either spelling). Outer `none` = `ShapeError`. -/
 def broadcastArg (self : Shape) (other : ShapeArg) : Option Shape := broadcast self other.resolve
+
+/-- `Shape.maybe_rank`; `Shape.rank` is the same with `ShapeError` for `none`. -/
+def Shape.maybeRank (s : Shape) : Option Nat := s.map List.length
 
 /-- `Shape.can_broadcast`: `broadcast` did not raise `ShapeError`. -/
 def canBroadcast (self : Shape) (other : ShapeArg) : Bool := (broadcastArg self other).isSome
